@@ -353,6 +353,10 @@ impl Owner {
     async fn age(&self, ctx: &Context<'_>) -> Result<Option<i32>> {
         res(ctx, self.0, "Owner", "age").await
     }
+    /// nullable list of nullable lists of objects
+    async fn packs(&self, ctx: &Context<'_>) -> Result<Option<Vec<Option<Vec<Dog>>>>> {
+        res(ctx, self.0, "Owner", "packs").await
+    }
 }
 
 pub struct QueryCore;
@@ -406,6 +410,10 @@ impl QueryExtra {
     #[graphql(name = "extraNN")]
     async fn extra_nn(&self, ctx: &Context<'_>) -> Result<i32> {
         res(ctx, root(ctx, 0)?, "Query", "extraNN").await
+    }
+    /// list of lists of an abstract type
+    async fn grid(&self, ctx: &Context<'_>) -> Result<Vec<Vec<Pet>>> {
+        res(ctx, root(ctx, 0)?, "Query", "grid").await
     }
     async fn stats(&self, ctx: &Context<'_>) -> Result<Option<Stats>> {
         res(ctx, root(ctx, 0)?, "Query", "stats").await
